@@ -311,6 +311,36 @@ let do_kern (args : string list) =
   | ["accepts"; id; ext; hex] -> print_endline (b01 (Kernel.kernel_accepts !kern (zi id) (bool_of ext) (hex_to_bytes hex)))
   | _ -> failwith "kern"
 
+
+(* ---- two layers joined by a link (Model/Joint.v): user-level calls on the pair ---- *)
+let jnet : (Joint.net * cfg * cfg) option ref = ref None
+let side_of = function "A" -> Joint.SA | "B" -> Joint.SB | s -> failwith ("side " ^ s)
+let side_str = function Joint.SA -> "A" | Joint.SB -> "B"
+let jev_str = function
+  | Joint.JE (sd, e) -> side_str sd ^ ":" ^ event_str e
+  | Joint.JSent (sd, p) -> side_str sd ^ ":sent:" ^ bytes_to_hex p
+  | Joint.JRecv (sd, p) -> side_str sd ^ ":recv:" ^ bytes_to_hex p
+let do_joint (args : string list) =
+  match args with
+  | ["init"; ka; kb] ->
+      let a = Hashtbl.find insts (int_of_string ka) and b = Hashtbl.find insts (int_of_string kb) in
+      jnet := Some ({ Joint.nA = a.w.Layer.w_l; Joint.nB = b.w.Layer.w_l; Joint.inA = []; Joint.inB = [] }, a.cfg, b.cfg);
+      print_endline "ok"
+  | _ ->
+      let (n, ca, cb) = match !jnet with Some x -> x | None -> failwith "no joint net" in
+      let call = match args with
+        | ["proc"; sd; dorx; dotx] -> Joint.CProcess (side_of sd, !fuel, bool_of dorx, bool_of dotx)
+        | ["send"; sd; t; hex] ->
+            let data = hex_to_bytes hex in
+            Joint.CSend (side_of sd, { g_items = data; g_fill = None }, z_of_int (L.length data), tat_of t)
+        | ["recv"; sd] -> Joint.CRecv (side_of sd)
+        | ["tick"; sd; ns] -> Joint.CTick (side_of sd, zi ns)
+        | _ -> failwith ("joint " ^ S.concat " " args) in
+      let (n', evs) = Joint.cstep ca cb n call in
+      jnet := Some (n', ca, cb);
+      Printf.printf "%s | inA=%d inB=%d A[%s] B[%s]\n" (S.concat " " (L.map jev_str evs))
+        (L.length n'.Joint.inA) (L.length n'.Joint.inB) (status n'.Joint.nA) (status n'.Joint.nB)
+
 let () =
   try
     while true do
@@ -337,6 +367,7 @@ let () =
        | "V" :: args -> do_validate args
        | "T" :: k :: args -> do_tl (int_of_string k) args
        | "M" :: args -> do_merge args
+       | "J" :: args -> do_joint args
        | ["ECHO"; s] -> print_endline s
        | _ -> failwith ("line " ^ line));
       flush stdout
